@@ -130,6 +130,26 @@ def gen_case(rng):
             ops.append({"op": "copy", "keep": keep})
         else:
             ops.append({"op": "switch"})                          # go on with the other of the two handles
+            if rng.random() < .4:
+                # ... and copy it right away: a copy taken from a handle that has not yet noticed what was done through the other one
+                ops.append({"op": "copy", "keep": rng.random() < .3})
+                if rng.random() < .7: ops.append(gen_where(rng, cols, kinds, none_cols))
+    if rng.random() < .12:
+        # an episode with three handles on one data: the table is indexed, a copy of it is edited (rows inserted / re-indexed), and
+        # before the original is used again a second copy is taken from it and queried on its index columns
+        cand = [c for c in cols if c not in none_cols]
+        if cand:
+            ix = rng.sample(cand, min(rng.choice([1, 1, 2]), len(cand)))
+            ops.append({"op": "index", "cols": ix})
+            ops.append({"op": "copy", "keep": True})
+            if rng.random() < .7: ops.append({"op": "insert", "form": rng.choice(["rows", "dicts", "cols"]), "rows": gen_rows(rng.choice([1, 2, 4]), cols), "cols": list(cols)})
+            else:                 ops.append({"op": "index", "cols": rng.sample(cand, min(rng.choice([1, 2]), len(cand)))})
+            ops.append({"op": "switch"})
+            ops.append({"op": "copy", "keep": rng.random() < .3})
+            for _ in range(rng.choice([1, 2])):
+                c = rng.choice(ix)
+                ops.append({"op": "where", "chain": [{"form": "dict", "conds": [gen_cond(rng, c, kinds[c], False)]}]} if rng.random() < .6 else gen_where(rng, cols, kinds, none_cols))
+            if rng.random() < .4: ops.append({"op": "groupby", "select": "count"})
     return {"ops": ops, "kinds": kinds, "none_cols": none_cols}
 
 def gen_cond(rng, col, kind, has_none):
